@@ -2,10 +2,11 @@ package main
 
 // C18T: installing a stats handler must not change what the client gets, also for handlers that set
 // header and trailer metadata (a shape the scripted scenarios of c18.go do not cover).
-//   C18T <proto: http|grpc|web> <outcome: ok|fail> ; same | diff <what>
+//   C18T <proto: http|grpc|web>[+<grpc-encoding: identity|gzip|zz>] <outcome: ok|fail> ; same | diff <what>
 
 import (
 	"bytes"
+	"compress/gzip"
 	"context"
 	"fmt"
 	"net/http"
@@ -67,17 +68,28 @@ func c18tMux(fail bool, withStats bool) *larking.Mux {
 func c18tView(proto string, fail, withStats bool) string {
 	m := c18tMux(fail, withStats)
 	var r *http.Request
+	proto, enc, _ := strings.Cut(proto, "+")
+	frame := []byte{0, 0, 0, 0, 0}
+	if enc == "gzip" {
+		var z bytes.Buffer
+		zw := gzip.NewWriter(&z)
+		zw.Close()
+		frame = append([]byte{1, 0, 0, 0, byte(z.Len())}, z.Bytes()...)
+	}
 	switch proto {
 	case "http":
 		r = httptest.NewRequest("GET", "http://x/c18t/un", nil)
 	case "grpc":
-		r = httptest.NewRequest("POST", "http://x/verif.c18t.Tsvc/Un", bytes.NewReader([]byte{0, 0, 0, 0, 0}))
+		r = httptest.NewRequest("POST", "http://x/verif.c18t.Tsvc/Un", bytes.NewReader(frame))
 		r.ProtoMajor, r.ProtoMinor = 2, 0
 		r.Header.Set("Content-Type", "application/grpc")
 		r.Header.Set("Te", "trailers")
 	case "web":
-		r = httptest.NewRequest("POST", "http://x/verif.c18t.Tsvc/Un", bytes.NewReader([]byte{0, 0, 0, 0, 0}))
+		r = httptest.NewRequest("POST", "http://x/verif.c18t.Tsvc/Un", bytes.NewReader(frame))
 		r.Header.Set("Content-Type", "application/grpc-web+proto")
+	}
+	if enc != "" {
+		r.Header.Set("Grpc-Encoding", enc)
 	}
 	w := httptest.NewRecorder()
 	func() {
@@ -116,8 +128,117 @@ func c18tRun(o *out, input string) {
 	o.emit(input, "diff "+strings.ReplaceAll("without:"+a+"__with:"+b, " ", "_"))
 }
 
+// C18Z <variant> ; <events>: one HTTP-transcoded call whose request body names a Content-Encoding, on a
+// mux with a recording stats handler; the events must form one well-formed sequence (in particular: a
+// Begin is followed by exactly one End), whatever becomes of the body.
+type c18zStats struct{ ev *[]string }
+
+func (s c18zStats) TagRPC(ctx context.Context, info *stats.RPCTagInfo) context.Context {
+	*s.ev = append(*s.ev, "T:"+hx([]byte(info.FullMethodName)))
+	return ctx
+}
+func (s c18zStats) HandleRPC(_ context.Context, st stats.RPCStats) {
+	var x string
+	switch v := st.(type) {
+	case *stats.InHeader:
+		x = "H:" + hx([]byte(v.FullMethod))
+	case *stats.Begin:
+		x = fmt.Sprintf("B:%d%d", b2i(v.IsClientStream), b2i(v.IsServerStream))
+	case *stats.InPayload:
+		x = fmt.Sprintf("I:%d:%d", v.Length, v.WireLength)
+	case *stats.OutHeader:
+		x = "OH"
+	case *stats.OutPayload:
+		x = fmt.Sprintf("O:%d:%d", v.Length, v.WireLength)
+	case *stats.OutTrailer:
+		x = "OT"
+	case *stats.End:
+		x = "E:" + c18Code(v.Error)
+	default:
+		x = fmt.Sprintf("X:%T", st)
+	}
+	*s.ev = append(*s.ev, x)
+}
+func (c18zStats) TagConn(ctx context.Context, _ *stats.ConnTagInfo) context.Context { return ctx }
+func (c18zStats) HandleConn(context.Context, stats.ConnStats)                       {}
+
+func c18zRun(o *out, input string) {
+	f := strings.Fields(input)
+	msg := "larking.testpb.Message"
+	df := dynFile{Path: "verif/c18z.proto", Pkg: "verif.c18z", Services: []dynService{{Name: "Zsvc", Methods: []dynMethod{
+		{Name: "Un", In: msg, Out: msg, Rule: &dynRule{Verb: "POST", Tmpl: "/c18z/un", Body: "*"}},
+		{Name: "Up", In: msg, Out: msg, ClientStream: true, Rule: &dynRule{Verb: "POST", Tmpl: "/c18z/up", Body: "*"}},
+	}}}}
+	fd, err := df.build()
+	if err != nil {
+		panic(err)
+	}
+	impl := &dynImpl{
+		Unary: func(ctx context.Context, method string, req proto.Message, out protoreflect.MessageDescriptor) (proto.Message, error) {
+			return dynamicpb.NewMessage(out), nil
+		},
+		Stream: func(method string, in, out protoreflect.MessageDescriptor, ss grpc.ServerStream) error {
+			for {
+				if err := ss.RecvMsg(dynamicpb.NewMessage(in)); err != nil {
+					break
+				}
+			}
+			return ss.SendMsg(dynamicpb.NewMessage(out))
+		},
+	}
+	var ev []string
+	m, err := dynMux([]protoreflect.FileDescriptor{fd}, impl, larking.StatsOption(c18zStats{&ev}))
+	if err != nil {
+		panic(err)
+	}
+	var z bytes.Buffer
+	zw := gzip.NewWriter(&z)
+	zw.Write([]byte(`{"text":"hello"}`))
+	zw.Close()
+	body, enc := z.Bytes(), "gzip"
+	switch f[1] {
+	case "okgzip":
+	case "badgzip":
+		body = []byte(`{"text":"not gzip at all"}`)
+	case "emptygzip":
+		body = nil
+	case "truncgzip":
+		body = body[:len(body)-9]
+	case "shortgzip":
+		body = body[:5]
+	case "unknownenc":
+		enc, body = "br", []byte(`{"text":"hello"}`)
+	}
+	path := "/c18z/un"
+	if len(f) > 2 && f[2] == "up" {
+		path = "/c18z/up"
+	}
+	r := httptest.NewRequest("POST", path, bytes.NewReader(body))
+	r.Header.Set("Content-Type", "application/json")
+	r.Header.Set("Content-Encoding", enc)
+	w := httptest.NewRecorder()
+	func() {
+		defer func() {
+			if p := recover(); p != nil {
+				ev = append(ev, "X:panic")
+			}
+		}()
+		m.ServeHTTP(w, r)
+	}()
+	if len(ev) == 0 {
+		ev = []string{"-"}
+	}
+	o.emit(input, strings.Join(ev, ","))
+}
+
 func c18tGen(o *out) {
-	for _, p := range []string{"http", "grpc", "web"} {
+	for _, v := range []string{"okgzip", "badgzip", "emptygzip", "truncgzip", "shortgzip", "unknownenc"} {
+		for _, sh := range []string{"un", "up"} {
+			o.count("C18Z")
+			c18zRun(o, "C18Z "+v+" "+sh)
+		}
+	}
+	for _, p := range []string{"http", "grpc", "web", "grpc+identity", "grpc+gzip", "grpc+zz", "web+identity", "web+gzip", "web+zz"} {
 		for _, oc := range []string{"ok", "fail"} {
 			o.count("C18T")
 			c18tRun(o, "C18T "+p+" "+oc)
@@ -133,6 +254,8 @@ func init() {
 		run: func(o *out, in string) {
 			if strings.HasPrefix(in, "C18T") {
 				c18tRun(o, in)
+			} else if strings.HasPrefix(in, "C18Z") {
+				c18zRun(o, in)
 			} else {
 				rn(o, in)
 			}
